@@ -275,9 +275,10 @@ func (r *persistRunner) Exec(line string) string {
 		}
 		r.open()
 		r.tag("reopen")
-		out := r.dump("after reopen")
-		// C09: RangeKeys after reopen = exactly the acknowledged map
+		// C09: RangeKeys after reopen = exactly the acknowledged map. Asked FIRST, before any key is read: a freshly opened
+		// persister must enumerate everything without having been "warmed up" by Get/Has calls
 		got := r.rangeAll()
+		out := r.dump("after reopen")
 		if len(got) != len(r.ref) {
 			r.add("C09", "range-after-reopen", fmt.Sprintf("RangeKeys visits %d keys, acknowledged map holds %d", len(got), len(r.ref)))
 		}
